@@ -132,7 +132,9 @@ func (d *vLoopDev) Out(a uint8, v uint8)  { d.tick(); d.bus.Out(a, v) }
 // 11 memory full of FD | 12 DD FD DD FD ... | 13 NOPs
 // mode: 0 BreakPoints nil, cancellable context | 1 BreakPoints an arbitrary set
 // the program never reaches | 2 a context with a (far) deadline, cancelled early |
-// 3 a maskable request pending and refused for the whole run (IFF1 clear, no EI)
+// 3 a maskable request pending and refused for the whole run (IFF1 clear, no EI) |
+// 4 a breakpoint on the looping instruction itself (kinds 0, 1): Run stops there
+// at once with ErrBreakPoint, or - cancelled first - with the context's error
 func VC13Loop(kind, at, mode int) {
 	var s States
 	vHavoc(&s, "s")
@@ -210,6 +212,10 @@ func VC13Loop(kind, at, mode int) {
 		c1.IFF1, c2.IFF1 = false, false
 		c1.Interrupt, c2.Interrupt = IM1Interrupt(), IM1Interrupt()
 	}
+	if mode == 4 {
+		c1.BreakPoints = map[uint16]struct{}{pc: {}}
+		c2.BreakPoints = map[uint16]struct{}{pc: {}}
+	}
 	if mode == 1 {
 		// breakpoints somewhere the program does not go (all kinds stay within 2*span bytes of pc)
 		k1, k2 := vU16("bpk1"), vU16("bpk2")
@@ -218,8 +224,12 @@ func VC13Loop(kind, at, mode int) {
 		c2.BreakPoints = map[uint16]struct{}{k1: {}, k2: {}}
 	}
 	err := c1.Run(ctx)
-	vAssert("returns-ctx-error", vIsErrOf(err, ctx))
-	vAssert("cancelled-before-return", dev.cancelled)
+	if mode == 4 && vErrKind(err) == 1 {
+		vAssert("breakpoint-legitimately", c1.PC == pc)
+	} else {
+		vAssert("returns-ctx-error", vIsErrOf(err, ctx))
+		vAssert("cancelled-before-return", dev.cancelled)
+	}
 	// a whole number of Steps: the twin is stepped until it has made as many accesses
 	for i := 0; i < at+vPromptSteps+12 && twinBus.Len() < bus.Len(); i++ {
 		c2.Step()
